@@ -1,6 +1,7 @@
 """C02 - round trip through the safe dumpers and loaders (boundary oracle: ref.bisim)."""
 import random
 import re
+import sys
 
 import yaml
 
@@ -101,6 +102,16 @@ def classify(spec, opts, dname, lname, res):
     # F7c: libyaml emitter folds inside a more-indented line of a folded scalar
     if dname.startswith('C') and opts.get('default_style') == '>' and f7c_symptom(la, lb):
         return 'F7c'
+    # F24: an int beyond the interpreter's int <-> decimal text limit; confirmed by the counterfactual (limit lifted: holds)
+    lim = sys.get_int_max_str_digits() if hasattr(sys, 'get_int_max_str_digits') else 0
+    if lim and isinstance(exc, (ValueError, yaml.YAMLError)) and any(n[0] == 'i' and len(n[1].lstrip('-')) > lim for n in spec['nodes']):
+        sys.set_int_max_str_digits(0)
+        try:
+            res2 = one(spec, opts, dname, lname)
+        finally:
+            sys.set_int_max_str_digits(lim)
+        if res2 is None:
+            return 'F24'
     return None
 
 
@@ -128,8 +139,25 @@ def do_case(spec, opts, ctx, pairs=PAIRS):
             ctx.violation({'spec': spec, 'opts': O.jsonable(opts), 'D': dname, 'L': lname}, d, mech)
 
 
+def huge_ints(ctx):
+    """ints on both sides of the interpreter's int <-> decimal text limit (4300 digits by default)"""
+    lim = sys.get_int_max_str_digits() if hasattr(sys, 'get_int_max_str_digits') else 0
+    if not lim:
+        ctx.stat('no_int_text_limit')
+        return
+    for digits in (lim - 1, lim, lim + 1, 2 * lim):
+        for sign in ('', '-'):
+            for shape in range(3):
+                i = ['i', sign + '7' * digits]
+                vs = [{'nodes': [i], 'root': 0}, {'nodes': [['list', [1, 2]], i, ['s', 'x']], 'root': 0}, {'nodes': [['dict', [[1, 2]]], i, ['s', 'v']], 'root': 0}][shape]
+                ctx.case(core.h64('hugeint', digits, sign, shape), True, ['huge_int:' + ('over' if digits > lim else 'within')])
+                do_case(vs, {}, ctx)
+
+
 def run(spec, ctx):
     r = random.Random(core.h64('C02', spec['seed'], spec['shard']))
+    if spec['shard'] == 0:
+        huge_ints(ctx)
     for i in range(spec['n']):
         vs, classes = V.gen_spec(r)
         opts = O.gen(r)
